@@ -203,6 +203,22 @@ def _rest(ctx, rep):
         nxt = [cfgl.nodes[m] for l, m in puts[0][0].succ if l != "exc"]
         good = all(x.kind == "stmt" and isinstance(x.ast, ast.Continue) for x in nxt)
     rep.check(good, "R3", key(live, None, "live: a CLOSED book queues exactly one close event and is not processed further"), live)
+    # ... and only for a market the framework knows and has open: a market first seen CLOSED is added, a market
+    # that was closed before is re-opened (cleared flags reset) before the closure is queued
+    look = [n for n in cfgl.live_nodes() if n.kind == "stmt" and isinstance(n.ast, ast.Assign) and utext(n.ast.targets[0]) == "market"
+            and utext(n.ast.value) == "self.markets.markets.get(market_id)"]
+    adds = [n for n, c in node_calls(cfgl, "_add_market")]
+    reopens = [n for n, c in node_calls(cfgl, "add_market") if recv_text(c) == "self.markets"]
+    good = len(puts) == 1 and len(look) == 1 and len(adds) == 1 and len(reopens) == 1
+    if good:
+        pn = puts[0][0]
+        unknown = cfgl.assume({"market_is_new": True, "market is None": True})
+        closed_before = cfgl.assume({"market_is_new": False, "market is None": False, "market.closed": True})
+        good = cfgl.dominates(look[0].id, pn.id) and \
+            cfgl.all_paths_pass(look[0].id, pn.id, [adds[0].id], unknown) and \
+            cfgl.all_paths_pass(look[0].id, pn.id, [reopens[0].id], closed_before)
+    rep.check(good, "R3", key(live, None, "live: the closure is queued for a market that has been added / re-opened first"), live, None,
+              "a market first seen CLOSED would be unknown to the closure; a repeated closing update would find the cleared flags still set")
     for attr in ("closed", "orders_cleared", "market_cleared"):
         for fn, s, t, kind in all_stores(prog, attr):
             bt = res.type_of(t.value, fn)
@@ -330,6 +346,10 @@ def closed_market_results(ctx, rep, R):
 
 _BF = "flumine/baseflumine.py"
 MUTANTS = [
+    dict(id="c20-live-closed-before-lookup", file=_BF, func="BaseFlumine._process_market_books",
+         old="            market = self.markets.markets.get(market_id)\n            market_is_new = market is None\n",
+         new="            if market_book.status == \"CLOSED\":\n                self.handler_queue.put(events.CloseMarketEvent(market_book))\n                continue\n            market = self.markets.markets.get(market_id)\n            market_is_new = market is None\n",
+         expect=["R3"], why="a market first seen CLOSED is never added; a repeated CLOSED update is not re-opened"),
     dict(id="c20-skip-blotter-results", file=_BF, func="BaseFlumine._process_close_market",
          old="            market.blotter.process_closed_market(market, event.event)\n", new="", expect=["R1"], why="orders never get results"),
     dict(id="c20-break-strategy-loop", file=_BF, func="BaseFlumine._process_close_market",
